@@ -1555,6 +1555,11 @@ func (w *World) checkJobDiff(job string, minAge time.Duration, maxDelete, n int,
 				}
 				if !ok {
 					bad("removed-row-outside-criterion:"+t, "deleted %s row %v which does not meet the job's criterion", t, r)
+					if job == "prune-expired-deliveries" && t == "deliveries" && r["completed_at"] == "NULL" {
+						// the same observation is the retention promise broken: the
+						// delivery was deliverable and its retention had not ended
+						w.violate("C14", "expiry-sweep-removed-unexpired-delivery", "%s (minAge %v) at %s removed outstanding delivery row %v whose retention ends only at %s", job, minAge, ts(hi), r["id"], r["expires_at"])
+					}
 				}
 				continue
 			}
